@@ -386,7 +386,7 @@ def tie(ctx):
         if len(samples) < 3 and len(real["trace"]) > 1 and i >= n_corpus + n_gadget:
             samples.append({"shape": cj, "trace": real["trace"][:4], "model_best": o_run["best"], "npoints": o_run["npoints"]})
     return {"families": fam, "violations": violations, "evaluations": len(data), "distinct_nontrivial": len(distinct),
-            "rule": "random aldy-shaped models (2-8 binaries, 1-5 error rows, cardinality/ordering/product side constraints, gap in {0,0.1,0.5}, limit in {None,1,3}) + exhaustive product (1-4 factors) and absolute-value (1-4 terms, all sign patterns) gadget models; non-trivial = feasible with more than one feasible binary assignment; distinct by hash of the canonical model",
+            "rule": "random aldy-shaped models (2-8 binaries, 1-5 error rows with weights incl. 0, cardinality/ordering/product side constraints, a quarter with 1-2 general integer variables, gap in {0,0.1,0.5}, limit in {None,1,3}) + exhaustive product (1-4 factors) and absolute-value (1-4 terms, all sign patterns) gadget models; non-trivial = feasible with more than one feasible binary assignment; distinct by hash of the canonical model",
             "samples": samples, "stats": stats | {"corpus": n_corpus, "gadget_models": n_gadget, "random_models": n}}
 
 
